@@ -1,6 +1,7 @@
 """C04 (scoped) — GC-schedule safety of the JS backend's lifetime edges (`gc-sim`, DESIGN.md §4)."""
 import json
 import os
+import re
 import shutil
 import time
 from concurrent.futures import ThreadPoolExecutor
@@ -26,6 +27,8 @@ def is_negative(idx):
 ABIS = [("legacy", []), ("spec", ["--config", "js.abi=spec"])]
 
 
+DROPPED = []  # (bridge index, methods the lowering gate rejected and the bridge was regenerated without)
+ANSI = re.compile(r"\x1b\[[0-9;]*m")
 CATALOGUE = -1  # bridge index of the fixed catalogue of delicate shapes (gen.mjs::catalogueSpec)
 
 
@@ -40,25 +43,39 @@ def prepare_bridge(tool, js_dir, work, seed, idx):
         gen_args = ["--seed", str(seed), "--omit", str(idx - OMIT_BASE)]
     else:
         gen_args = ["--seed", str(seed), "--bridge", str(idx)]
-    rc, out, err = run_capture(["node", os.path.join(js_dir, "gen.mjs")] + gen_args + ["--out", base])
-    if rc == 3 and "NO-SPEC" in out:
-        return [], 0, 0
-    if rc != 0:
-        raise HarnessError("gen.mjs failed: %s" % err[-2000:])
-    ready, rejected, crashed = [], 0, 0
-    for abi, extra in ABIS:
-        d = os.path.join(base, abi)
-        os.makedirs(d, exist_ok=True)
-        shutil.copy(os.path.join(base, "desc.json"), os.path.join(d, "desc.json"))
-        rc, out, err = run_capture([tool, "js", os.path.join(d, "api"), "-e", os.path.join(base, "src", "lib.rs"), "-s"] + extra, cwd=base)
+    # A method the lowering gate rejects needs no checking, but it must not take the rest of its bridge with it: the tool
+    # names the methods it rejects ("Lowering error in O2::m32: ..."), and the bridge is generated again without them.
+    drop = []
+    for attempt in range(4):
+        if os.path.isdir(base):
+            shutil.rmtree(base)
+        rc, out, err = run_capture(["node", os.path.join(js_dir, "gen.mjs")] + gen_args + (["--drop", ",".join(drop)] if drop else []) + ["--out", base])
+        if rc == 3 and "NO-SPEC" in out:
+            return [], 0, 0
         if rc != 0:
-            if "panicked at" in err:
-                crashed += 1  # C15's subject, not C04's
-            rejected += 1
-            continue
-        with open(os.path.join(d, "api", "diplomat-wasm.mjs"), "w") as f:
-            f.write("// model wasm installed by gc-sim (lib/c04.py); the real module needs a wasm32 build of the bridge\nexport default globalThis.__vsim_wasm;\n")
-        ready.append((abi, d))
+            raise HarnessError("gen.mjs failed: %s" % err[-2000:])
+        ready, rejected, crashed, named = [], 0, 0, []
+        for abi, extra in ABIS:
+            d = os.path.join(base, abi)
+            os.makedirs(d, exist_ok=True)
+            shutil.copy(os.path.join(base, "desc.json"), os.path.join(d, "desc.json"))
+            rc, out, err = run_capture([tool, "js", os.path.join(d, "api"), "-e", os.path.join(base, "src", "lib.rs"), "-s"] + extra, cwd=base)
+            if rc != 0:
+                if "panicked at" in err:
+                    crashed += 1  # C15's subject, not C04's
+                else:
+                    named += [m for m in re.findall(r"Lowering error in (\w+::m\d+):", ANSI.sub("", out + err)) if m not in named and m not in drop]
+                rejected += 1
+                continue
+            with open(os.path.join(d, "api", "diplomat-wasm.mjs"), "w") as f:
+                f.write("// model wasm installed by gc-sim (lib/c04.py); the real module needs a wasm32 build of the bridge\nexport default globalThis.__vsim_wasm;\n")
+            ready.append((abi, d))
+        # (negative bridges ask whether the tool accepts one particular method: no retry there)
+        if not named or attempt == 3 or idx <= NEG_BASE or idx >= OMIT_BASE:
+            break
+        drop += named
+    if drop:
+        DROPPED.append((idx, list(drop)))
     return ready, rejected, crashed
 
 
@@ -143,7 +160,7 @@ def check(tier, seed):
                  "distinct = FNV-64 of the op list per (bridge, ABI); non-trivial = at least one GC point at which something a held value may borrow from was no longer held by the program (the configuration S1 exists for)."),
         "samples": samples,
         "exhaustive": False,
-        "bridges_generated": b["bridges"], "catalogue_bridge": catalogue_status, "negative_bridges": {"generated": len(neg_idx), "bridge_abi_pairs_accepted_by_the_tool_and_run": neg_accepted, "note": "methods that leave a definition-implied bound implicit; the tool's validation is expected to reject them"}, "bridge_abi_pairs_run": totals["bridges_run"], "tool_rejected": rejected, "tool_crashed_on_generated_bridge": crashed,
+        "bridges_generated": b["bridges"], "catalogue_bridge": catalogue_status, "negative_bridges": {"generated": len(neg_idx), "bridge_abi_pairs_accepted_by_the_tool_and_run": neg_accepted, "note": "methods that leave a definition-implied bound implicit; the tool's validation is expected to reject them"}, "bridge_abi_pairs_run": totals["bridges_run"], "tool_rejected": rejected, "bridges_regenerated_without_methods_the_lowering_gate_rejected": len(DROPPED), "methods_rejected_by_the_lowering_gate_and_left_out": sum(len(d[1]) for d in DROPPED), "tool_crashed_on_generated_bridge": crashed,
         "distinct_traces": totals["distinct_traces"], "max_distinct_op_transitions_per_bridge": transitions,
         "fault_kinds_fired": {k: v for k, v in counters.items() if k.startswith("fault_")},
         "reach_probes": {k: v for k, v in sorted(counters.items()) if not k.startswith("fault_") and not k.startswith("ops_")},
